@@ -126,9 +126,12 @@ VARIANTS = {
 
 
 def _prune(prefix, keep):
+    """drop old cached builds, but never one used in the last two hours (a long-running check may still execute from it)"""
     ds = sorted([d for d in BUILD.glob(prefix + "*") if d.is_dir()], key=lambda d: d.stat().st_mtime)
+    now = time.time()
     for d in ds[:-keep] if keep else ds:
-        shutil.rmtree(d, ignore_errors=True)
+        if now - d.stat().st_mtime > 7200:
+            shutil.rmtree(d, ignore_errors=True)
 
 
 def cflags():
